@@ -157,6 +157,19 @@ func Mutants(doc M, seed int64, max int) []Mutant {
 					parent["content"] = M{"application/json": M{"schema": s}}
 					return true
 				})
+				add("content-param-text", p, func(d M) bool {
+					parent, _ := valueAt(d, pp).(M)
+					if parent == nil {
+						return false
+					}
+					if _, isParam := parent["in"]; !isParam {
+						return false
+					}
+					s := parent["schema"]
+					delete(parent, "schema")
+					parent["content"] = M{"text/plain": M{"schema": s}}
+					return true
+				})
 			}
 		case "items":
 			add("drop-items", p, func(d M) bool { return setAt(d, p, nil, true) })
@@ -202,6 +215,81 @@ func Mutants(doc M, seed int64, max int) []Mutant {
 		case "responses", "properties", "paths", "content", "variables", "mapping", "headers":
 			add("empty-map", p, func(d M) bool { return setAt(d, p, M{}, false) })
 		}
+	}
+	// document-level targeted mutations
+	if paths, ok := doc["paths"].(M); ok {
+		for _, pk := range sortedKeys(paths) {
+			// a path template that uses one variable name twice
+			first := strings.Index(pk, "{")
+			if first < 0 {
+				continue
+			}
+			end := strings.Index(pk[first:], "}")
+			if end < 0 {
+				continue
+			}
+			name := pk[first+1 : first+end]
+			pk := pk
+			add("duplicate-path-variable", []string{"paths", pk}, func(d M) bool {
+				ps := d["paths"].(M)
+				ps[pk+"/again/{"+name+"}"] = ps[pk]
+				delete(ps, pk)
+				return true
+			})
+			break
+		}
+	}
+	if comps, ok := doc["components"].(M); ok {
+		if schemas, ok := comps["schemas"].(M); ok {
+			for i, sk := range sortedKeys(schemas) {
+				if i > 2 {
+					break
+				}
+				sk := sk
+				for _, gt := range []string{"github.com/foo/Bar", "Bar", "pkg.", ".Bar", "a/b/c", ""} {
+					gt := gt
+					add("x-goag-go-type="+gt, []string{"components", "schemas", sk}, func(d M) bool {
+						sm, ok := d["components"].(M)["schemas"].(M)[sk].(M)
+						if !ok {
+							return false
+						}
+						sm["x-goag-go-type"] = gt
+						return true
+					})
+				}
+			}
+		}
+	}
+	// a recursive alias / array pair used as a query parameter, a header parameter and a body
+	for _, where := range []string{"query", "header", "body"} {
+		where := where
+		add("recursive-array-alias-"+where, []string{"components", "schemas"}, func(d M) bool {
+			comps, ok := d["components"].(M)
+			if !ok {
+				comps = M{}
+				d["components"] = comps
+			}
+			schemas, ok := comps["schemas"].(M)
+			if !ok {
+				schemas = M{}
+				comps["schemas"] = schemas
+			}
+			schemas["VerifAlias"] = M{"$ref": "#/components/schemas/VerifTree"}
+			schemas["VerifTree"] = M{"type": "array", "items": M{"$ref": "#/components/schemas/VerifAlias"}}
+			paths, ok := d["paths"].(M)
+			if !ok {
+				return false
+			}
+			op := M{"responses": M{"200": M{"description": "ok"}}}
+			switch where {
+			case "body":
+				op["requestBody"] = M{"content": M{"application/json": M{"schema": M{"$ref": "#/components/schemas/VerifTree"}}}}
+			default:
+				op["parameters"] = L{M{"name": "tree", "in": where, "schema": M{"$ref": "#/components/schemas/VerifTree"}}}
+			}
+			paths["/verif-recursive"] = M{"post": op}
+			return true
+		})
 	}
 	targeted := len(out)
 	// generic mutations on a seeded sample of nodes
